@@ -376,4 +376,45 @@ theorem L.stages_restore (h : List HEv) (e : HEv) (fl : Files) (hfl : fl ∈ L.s
   rw [abs_run_snoc]
   exact stages_of_inv (inv_run h) e fl hfl
 
+/-! ### the endpoint search of `coap_persist_observe_add_lkd` -/
+
+theorem epWalk_some {proto : Nat} {listen : Bytes} {eps : List Ep} {e : Ep} (h : epWalk proto listen eps = some e) :
+    e ∈ eps ∧ e.proto = proto ∧ e.addr = listen := by
+  induction eps with
+  | nil => simp [epWalk] at h
+  | cons x r ih =>
+    simp only [epWalk] at h
+    by_cases hx : x.proto = proto ∧ x.addr = listen
+    · simp only [hx, and_self, if_true, Option.some.injEq] at h
+      subst h; exact ⟨by simp, hx.1, hx.2⟩
+    · simp only [hx, if_false] at h
+      have := ih h
+      exact ⟨by simp [this.1], this.2⟩
+
+theorem epWalk_none {proto : Nat} {listen : Bytes} {eps : List Ep} :
+    epWalk proto listen eps = none ↔ ∀ e ∈ eps, ¬(e.proto = proto ∧ e.addr = listen) := by
+  induction eps with
+  | nil => simp [epWalk]
+  | cons x r ih =>
+    simp only [epWalk, List.mem_cons, forall_eq_or_imp]
+    by_cases hx : x.proto = proto ∧ x.addr = listen
+    · simp [hx]
+    · simp only [hx, if_false, not_false_eq_true, true_and]; exact ih
+
+theorem findEp_mem {eps : List Ep} {e : Ep} (he : e ∈ eps) (hp : e.proto = protoUdp) :
+    ∃ e', findEp eps e.proto e.addr = some e' ∧ e' ∈ eps ∧ e'.proto = e.proto ∧ e'.addr = e.addr := by
+  simp only [findEp, hp, ne_eq, not_true_eq_false, if_false]
+  cases hw : epWalk protoUdp e.addr eps with
+  | none => exact absurd ⟨hp, rfl⟩ (epWalk_none.1 hw e he)
+  | some e' => have := epWalk_some hw; exact ⟨e', rfl, this.1, this.2.1, this.2.2⟩
+
+theorem restoredObsVia_eq (eps : List Ep) (via : Nat → Ep) (hvia : ∀ c, via c ∈ eps ∧ (via c).proto = protoUdp)
+    (f : Files) : f.restoredObsVia eps via = f.restoredObs := by
+  simp only [Files.restoredObsVia, Files.restoredObs]
+  congr 1
+  apply List.filter_congr
+  intro r _
+  rcases findEp_mem (hvia r.client).1 (hvia r.client).2 with ⟨e', h, _⟩
+  simp [h]
+
 end Coap.Persist
